@@ -43,7 +43,8 @@ fn build_chain(env: &Env) -> Chain {
     let mut c = Chain::new(std::sync::Arc::clone(&env.consensus), scen::wavy_plan(6));
     // 10 s between blocks, so that the median time of the tip and its own time differ in seconds
     c.ts_step = 10_000;
-    let acts: Vec<(u64, Act)> = (1..=8).map(|n| (n, Act::Mine('A'))).collect();
+    // blocks 1..8 pay the miner reward to A (always success), blocks 9..12 to S (secp256k1 lock)
+    let acts: Vec<(u64, Act)> = (1..=8).map(|n| (n, Act::Mine('A'))).chain((9..=12).map(|n| (n, Act::Mine('S')))).collect();
     // (longer than the 37 blocks of the median-time window)
     scen::extend_chain(&mut c, &env.scripts, 45, &acts);
     c
@@ -64,7 +65,7 @@ fn new_sim(env: &Env, chain: &Chain, old: Option<Sim>) -> Sim {
         None => {
             let mut sim = scen::new_sim(env, cfg, world);
             crate::verif_hooks::rng_reset(18);
-            scen::register(&sim, &[(env.scripts.a.clone(), crate::storage::ScriptType::Lock, 0)]);
+            scen::register(&sim, &[(env.scripts.a.clone(), crate::storage::ScriptType::Lock, 0), (env.scripts.s.clone(), crate::storage::ScriptType::Lock, 0)]);
             sim.connect(1);
             sim.connect(2);
             sim.converge(60);
@@ -99,6 +100,25 @@ fn cell(chain: &Chain, i: usize) -> (packed::OutPoint, u64) {
 fn valid(env: &Env, chain: &Chain, i: usize) -> TransactionView {
     let (op, cap) = cell(chain, i);
     build_tx(&[env.scripts.always_dep.clone()], &[op], &[OutSpec::lock(&env.scripts.b, cap - 10_000)], 100 + i as u64)
+}
+
+/// A valid transaction that spends the i-th cell of S (i = 0..3: the cellbase of block 9 + i), signed.
+fn valid_secp(env: &Env, chain: &Chain, i: usize) -> TransactionView {
+    let (op, cap) = cell(chain, 8 + i);
+    let tx = build_tx(&[env.scripts.secp_dep.clone().expect("secp dep group")], &[op], &[OutSpec::lock(&env.scripts.b, cap - 10_000)], 0);
+    crate::verif::txlib::sign_secp(&tx.as_advanced_builder().set_witnesses(vec![]).build(), &crate::verif::txlib::SECP_KEY)
+}
+
+/// The same raw transaction (same hash) with one byte of witness `w` flipped at `pos` from the end.
+fn twin(tx: &TransactionView, w: usize, pos_from_end: usize) -> TransactionView {
+    let mut ws: Vec<packed::Bytes> = tx.witnesses().into_iter().collect();
+    let mut raw = ws[w].raw_data().to_vec();
+    let k = raw.len() - 1 - pos_from_end;
+    raw[k] ^= 1;
+    ws[w] = ckb_types::bytes::Bytes::from(raw).pack();
+    let t = tx.as_advanced_builder().set_witnesses(ws).build();
+    assert_eq!(t.hash(), tx.hash());
+    t
 }
 
 struct Observed {
@@ -257,6 +277,49 @@ fn mutation_cases(env: &Env, chain: &Chain) -> Vec<(String, Vec<TransactionView>
     let mut pre = vec![parent.clone()];
     pre.extend(fillers);
     case("child-of-an-evicted-transaction", pre, child, false);
+    // script verification that depends on the witness: cells locked by secp256k1_blake160_sighash_all
+    {
+        use crate::verif::txlib::{sign_secp, SECP_KEY};
+        let secp_dep = s.secp_dep.clone().expect("secp dep group");
+        let signed = valid_secp(env, chain, 0);
+        let unsigned = signed.as_advanced_builder().set_witnesses(vec![]).build();
+        case("valid/secp-signed", vec![], signed.clone(), true);
+        case("script-fails/secp/no-witness", vec![], unsigned.clone(), false);
+        case("script-fails/secp/signed-with-another-key", vec![], sign_secp(&unsigned, &[0x33; 32]), false);
+        for pos in [0usize, 1, 33, 64] {
+            case(&format!("script-fails/secp/signature-byte-flipped({})", pos), vec![], twin(&signed, 0, pos), false);
+        }
+        // the signature of another transaction of the same owner
+        let other = valid_secp(env, chain, 1);
+        case("script-fails/secp/signature-of-another-transaction", vec![], unsigned.as_advanced_builder().set_witnesses(other.witnesses().into_iter().collect()).build(), false);
+        // a further witness is covered by the signature: appended afterwards / altered afterwards
+        let with_extra = sign_secp(&unsigned.as_advanced_builder().witness(Default::default()).witness(ckb_types::bytes::Bytes::from(vec![7u8; 9]).pack()).build(), &SECP_KEY);
+        assert_eq!(with_extra.witnesses().len(), 2);
+        case("valid/secp-signed/extra-witness-covered", vec![], with_extra.clone(), true);
+        case("script-fails/secp/extra-witness-appended-after-signing", vec![], signed.as_advanced_builder().witness(ckb_types::bytes::Bytes::from(vec![7u8; 9]).pack()).build(), false);
+        case("script-fails/secp/extra-witness-altered-after-signing", vec![], twin(&with_extra, 1, 0), false);
+        // two inputs of the same owner, one signature for the group
+        {
+            let (op_a, cap_a) = cell(chain, 8);
+            let (op_b, cap_b) = cell(chain, 9);
+            let two = build_tx(&[secp_dep.clone()], &[op_a.clone(), op_b.clone()], &[OutSpec::lock(&s.b, cap_a + cap_b - 1)], 0).as_advanced_builder().set_witnesses(vec![]).build();
+            case("valid/secp-signed/two-inputs-one-group", vec![], sign_secp(&two, &SECP_KEY), true);
+            // an always-success input beside a secp input whose signature is missing
+            let mixed = build_tx(&[secp_dep.clone(), dep.clone()], &[op0.clone(), op_a.clone()], &[OutSpec::lock(&s.b, cap0 + cap_a - 1)], 0).as_advanced_builder().set_witnesses(vec![]).build();
+            case("script-fails/secp/unsigned-input-beside-an-always-success-input", vec![], mixed, false);
+            // secp cell without the code dep group
+            let nodep = build_tx(&[dep.clone()], &[op_a.clone()], &[OutSpec::lock(&s.b, cap_a - 1)], 0).as_advanced_builder().set_witnesses(vec![]).build();
+            case("missing-code-dep/secp", vec![], sign_secp(&nodep, &SECP_KEY), false);
+        }
+        // the same raw transaction (same hash) with an invalid witness while the valid one is
+        // pending / after the valid one was evicted; the valid one again after a rejected twin
+        case("script-fails/secp/twin-of-a-pending-transaction", vec![signed.clone()], twin(&signed, 0, 1), false);
+        case("script-fails/secp/twin-of-a-pending-transaction/no-witness", vec![signed.clone()], unsigned.clone(), false);
+        let mut pre = vec![signed.clone()];
+        pre.extend((2..2 + LIMIT).map(|i| valid(env, chain, i)));
+        case("script-fails/secp/twin-of-an-evicted-transaction", pre, twin(&signed, 0, 1), false);
+        case("valid/secp-signed/again-while-pending", vec![signed.clone()], signed.clone(), true);
+    }
     v
 }
 
@@ -266,6 +329,8 @@ fn mutation_cases(env: &Env, chain: &Chain) -> Vec<(String, Vec<TransactionView>
 pub(crate) enum Ev {
     Submit(usize),
     SubmitInvalid,
+    /// transaction 0 (secp-signed) with one signature byte flipped: same hash, script fails
+    SubmitTwin,
     RelayConnect(usize),
     RelayDisconnect(usize),
     RelayTick,
@@ -285,6 +350,7 @@ struct Track {
     pending: Vec<(String, String)>,
     submits: u32,
     invalids: u32,
+    twins: u32,
     ticks: u32,
     gets: u32,
     connects: u32,
@@ -410,6 +476,9 @@ impl<'a> Model for PoolModel<'a> {
         if t.invalids < 1 {
             v.push(Ev::SubmitInvalid);
         }
+        if t.twins < 1 {
+            v.push(Ev::SubmitTwin);
+        }
         for p in 1..=2usize {
             if t.opened.contains(&p) {
                 v.push(Ev::RelayDisconnect(p));
@@ -462,6 +531,17 @@ impl<'a> Model for PoolModel<'a> {
                     t.pending.push(("invalid-transaction-accepted".into(), "outputs exceed inputs".into()));
                 }
             }
+            Ev::SubmitTwin => {
+                let forged = twin(&self.txs[0], 0, 1);
+                let est = sim.c().rpc_chain().estimate_cycles(forged.data().into());
+                let r = sim.c().rpc_tx().send_transaction(forged.data().into());
+                let mut t = self.track.borrow_mut();
+                t.twins += 1;
+                if r.is_ok() || est.is_ok() {
+                    let pooled = t.pool.contains(&0);
+                    t.pending.push(("invalid-transaction-accepted/twin".into(), format!("transaction 0 with a flipped signature byte (same hash): send_transaction ok = {}, estimate_cycles ok = {}, the valid transaction 0 is {} the pool", r.is_ok(), est.is_ok(), if pooled { "in" } else { "not in" })));
+                }
+            }
             Ev::RelayConnect(p) => {
                 {
                     let mut t = self.track.borrow_mut();
@@ -511,6 +591,14 @@ impl<'a> Model for PoolModel<'a> {
             if member && st != TxStatusKind::Pending {
                 bad.push(("pool-member-not-pending".into(), format!("transaction {} should be in the pool (reference pool {:?}) but get_transaction does not report pending", i, t.pool)));
             }
+            if member {
+                // the pool serves the transaction as it was submitted, witnesses included
+                let got = sim.c().rpc_tx().get_transaction(tx.hash().unpack()).expect("get_transaction").transaction.map(|t| t.inner.witnesses);
+                let want: Vec<ckb_jsonrpc_types::JsonBytes> = tx.witnesses().into_iter().map(|w| ckb_jsonrpc_types::JsonBytes::from_bytes(w.raw_data())).collect();
+                if got.as_ref() != Some(&want) {
+                    bad.push(("pool-member-altered".into(), format!("transaction {} is served with witnesses {:?}", i, got)));
+                }
+            }
             if !member && st == TxStatusKind::Pending {
                 bad.push(("pending-but-not-a-pool-member".into(), format!("transaction {} is reported pending but the reference pool is {:?} (limit {}, oldest evicted first)", i, t.pool, LIMIT)));
             }
@@ -545,7 +633,7 @@ impl<'a> Model for PoolModel<'a> {
         for (i, p) in &t.announced_since_push {
             hasher.update(&[*i as u8, *p as u8]);
         }
-        hasher.update(&[t.submits as u8, t.invalids as u8, t.ticks as u8, t.gets as u8, t.connects as u8]);
+        hasher.update(&[t.submits as u8, t.invalids as u8, t.twins as u8, t.ticks as u8, t.gets as u8, t.connects as u8]);
         for (n, k) in &t.sessions {
             hasher.update(&[0xfb, *n as u8, *k as u8]);
         }
@@ -560,6 +648,7 @@ fn parse_ev(s: &str) -> Option<Ev> {
     Some(match name.as_str() {
         "Submit" => Ev::Submit(*a.first()? as usize),
         "SubmitInvalid" => Ev::SubmitInvalid,
+        "SubmitTwin" => Ev::SubmitTwin,
         "RelayConnect" => Ev::RelayConnect(*a.first()? as usize),
         "RelayDisconnect" => Ev::RelayDisconnect(*a.first()? as usize),
         "RelayTick" => Ev::RelayTick,
@@ -574,7 +663,7 @@ pub(crate) fn run(opts: &Opts, report: &mut Report) {
     if let Some((_config, events)) = opts.replay.as_deref().and_then(bfs::read_replay) {
         let env = Env::dummy();
         let chain = build_chain(&env);
-        let txs: Vec<TransactionView> = (0..5).map(|i| valid(&env, &chain, i)).collect();
+        let txs: Vec<TransactionView> = (0..5).map(|i| if i == 0 { valid_secp(&env, &chain, 0) } else { valid(&env, &chain, i) }).collect();
         let (op5, cap5) = cell(&chain, 5);
         let invalid = build_tx(&[env.scripts.always_dep.clone()], &[op5], &[OutSpec::lock(&env.scripts.b, cap5 + 1)], 999);
         let m = PoolModel { env: &env, chain, txs, invalid, track: RefCell::new(Track::default()) };
@@ -585,17 +674,19 @@ pub(crate) fn run(opts: &Opts, report: &mut Report) {
         bfs::replay_one(&m, &evs, &mut rep);
         return;
     }
-    const SHARDS: usize = 16;
-    // item 0: the mutation cases; items 1..: the pool / relay search
-    let n_items = 1 + SHARDS;
+    const SHARDS: usize = 12;
+    // the mutation cases are dealt to MUT items
+    const MUT: usize = 4;
+    // items 0..MUT: the mutation cases; items MUT..: the pool / relay search
+    let n_items = MUT + SHARDS;
     let max_depth = if thorough { 6 } else { 4 };
     let worker = crate::verif::props::shard::run("C18", opts, report, n_items, 16, |item, report| {
         let env = Env::dummy();
         let chain = build_chain(&env);
-        if item == 0 {
+        if item < MUT {
             let cases = mutation_cases(&env, &chain);
             let mut old: Option<Sim> = None;
-            for (label, pre, tx, expect_ok) in &cases {
+            for (label, pre, tx, expect_ok) in cases.iter().enumerate().filter(|(i, _)| i % MUT == item).map(|(_, c)| c) {
                 crate::verif::props::shard::journal(label);
                 // a fresh client with proven peers for every case (on a recycled, already synced
                 // store the peers could not be proven again before the chain grows, and the median
@@ -652,6 +743,18 @@ pub(crate) fn run(opts: &Opts, report: &mut Report) {
                     if !announced {
                         bad.push((format!("accepted-but-not-announced/{}", class), String::new()));
                     }
+                } else if let Some(original) = pre.iter().rev().take(LIMIT).find(|p| p.hash() == tx.hash()) {
+                    // a rejected twin (same hash, other witnesses) of a transaction that is still
+                    // in the pool: the pool keeps the valid original, witnesses included
+                    let got = sim.c().rpc_tx().get_transaction(tx.hash().unpack()).expect("get_transaction");
+                    let ws: Option<Vec<ckb_jsonrpc_types::JsonBytes>> = got.transaction.map(|t| t.inner.witnesses);
+                    let want: Vec<ckb_jsonrpc_types::JsonBytes> = original.witnesses().into_iter().map(|w| ckb_jsonrpc_types::JsonBytes::from_bytes(w.raw_data())).collect();
+                    if o.status != TxStatusKind::Pending || ws.as_ref() != Some(&want) {
+                        bad.push((format!("pending-transaction-replaced-by-a-rejected-twin/{}", class), format!("get_transaction reports {:?} with witnesses {:?}", o.status, ws)));
+                    }
+                    if o.relay_msgs > 0 {
+                        bad.push((format!("rejected-transaction-relayed/{}", class), String::new()));
+                    }
                 } else {
                     if o.status != TxStatusKind::Unknown {
                         bad.push((format!("rejected-transaction-stored/{}", class), format!("get_transaction reports {:?}", o.status)));
@@ -667,11 +770,13 @@ pub(crate) fn run(opts: &Opts, report: &mut Report) {
                 report.count(if *expect_ok { "mutation_cases_valid" } else { "mutation_cases_invalid" }, 1);
                 old = Some(sim);
             }
-            report.sample(json!({"mutation_cases": cases.iter().map(|c| c.0.clone()).collect::<Vec<_>>()}));
+            if item == 0 {
+                report.sample(json!({"mutation_cases": cases.iter().map(|c| c.0.clone()).collect::<Vec<_>>()}));
+            }
             return;
         }
-        let shard = item - 1;
-        let txs: Vec<TransactionView> = (0..5).map(|i| valid(&env, &chain, i)).collect();
+        let shard = item - MUT;
+        let txs: Vec<TransactionView> = (0..5).map(|i| if i == 0 { valid_secp(&env, &chain, 0) } else { valid(&env, &chain, i) }).collect();
         let (op5, cap5) = cell(&chain, 5);
         let invalid = build_tx(&[env.scripts.always_dep.clone()], &[op5], &[OutSpec::lock(&env.scripts.b, cap5 + 1)], 999);
         let m = PoolModel { env: &env, chain, txs, invalid, track: RefCell::new(Track::default()) };
@@ -710,7 +815,7 @@ pub(crate) fn run(opts: &Opts, report: &mut Report) {
     report.set("distinct_nontrivial", json!(report.get("states") + report.get("mutation_cases")));
     report.set("traces_validated_against_impl", json!(report.get("replays") + report.get("mutation_cases")));
     report.set("rule", json!("(a) one case = one transaction (after its valid predecessors) through estimate_cycles and send_transaction on a synced client, verdict known by construction; (b) state = event list replayed on the real client against a reference pool (fingerprint: store + reference pool + opened peers + announcements + budgets); transitions = (state, enabled event) pairs executed"));
-    report.set("bounds", json!({"pool_limit": LIMIT, "depth": max_depth, "budgets": "submit <= 5, invalid <= 1, relay tick <= 3, GetRelayTransactions <= 2, relay connect <= 3", "transactions": 5, "relay_peers": 2}));
+    report.set("bounds", json!({"pool_limit": LIMIT, "depth": max_depth, "budgets": "submit <= 5, invalid <= 1, forged twin of the secp-signed transaction 0 <= 1, relay tick <= 3, GetRelayTransactions <= 2, relay connect <= 3", "transactions": 5, "relay_peers": 2}));
     report.assume("always-success lock and type scripts; relay ticks only with an opened relay peer (the branch that re-opens the protocol needs the p2p service control); the 60 s Instant-based paths of relayer.rs are not reached");
 }
 
